@@ -17,9 +17,9 @@
 (*               (requests in a loop with seeded random handler times,     *)
 (*               no gates)                                                 *)
 (*  cls "notRun" Shutdown (twice) of a server that was never run           *)
-(*  cls "raceN"  `trials` pairs of Shutdown calls released by a spin       *)
-(*               barrier on an engine that is running (the CAS loser must  *)
-(*               report an error)                                          *)
+(*  cls "raceN"  `trials` rounds of 4 Shutdown calls released together by  *)
+(*               a spin barrier on an engine that is running (every CAS    *)
+(*               loser must report an error)                               *)
 (*                                                                         *)
 (* Families (every transport): all single kinds; unordered pairs (all when *)
 (* PairMod = 1, else the seeded 1/PairMod sample); NTriple seeded triples  *)
@@ -86,7 +86,7 @@ RandCases(tp) ==
        LET a == H(t * 7 + Seed * 977) b == H(a + 1) c == H(b + 1)
            n == (a % 3) + 1
            kind(x) == IF x % 4 = 0 THEN K[(((x \div 4) % 9)) + 1] ELSE "rR"
-       IN  [RunCase(tp, [i \in 1 .. n |-> kind(H(a + i * 19))], Pick(HookSets, b) , Pick(<<"none", "none", "during", "race">>, c), a)
+       IN  [RunCase(tp, [i \in 1 .. n |-> kind(H(a + i * 19))], Pick(HookSets, b \div 5), Pick(<<"none", "none", "during", "race">>, c \div 3), a)
               EXCEPT !.jit = 1]]
 
 \* the same schedules with a long exit wait time
